@@ -12,4 +12,5 @@ def _lazy(mod, fn):
 CHECKS = {
     "C04": _lazy("graph", "run_c04"),
     "C05": _lazy("graph", "run_c05"),
+    "C20": _lazy("graph", "run_c20"),
 }
